@@ -467,6 +467,8 @@ CONFIGS_QUICK = [
     ({"threads": 1, "worker_connections": 3, "keepalive": 3, "menu_mode": "keepalive", "prefix": [[["connect", 0], ["connect", 1]]]}, 7, 0),
     # saturated by idle keep-alive connections: they must still be reaped when their time is up
     ({"threads": 1, "worker_connections": 3, "keepalive": 1, "menu_mode": "keepalive", "nclients": 3, "prefix": [[["connect", 0], ["connect", 1]]]}, 5, 0),
+    # a request that takes longer than the keep-alive time: the idle period starts when it is finished, not when it was dispatched
+    ({"threads": 1, "worker_connections": 3, "keepalive": 2, "menu_mode": "nopipe", "nclients": 1, "prefix": [[["connect", 0]], [["send", 0, "gate"]], [["tick"]]]}, 4, 0),
     # saturated configurations (connections == worker_connections is reachable): shallow, they document the capacity wedge
     ({"threads": 1, "worker_connections": 1, "keepalive": 2}, 2, 1),
     ({"threads": 1, "worker_connections": 2, "keepalive": 2}, 2, 1),
@@ -483,6 +485,8 @@ CONFIGS_THOROUGH = [
     ({"threads": 1, "worker_connections": 1, "keepalive": 2}, 3, 1),
     ({"threads": 1, "worker_connections": 2, "keepalive": 2}, 3, 1),
     ({"threads": 2, "worker_connections": 2, "keepalive": 2}, 3, 1),
+    ({"threads": 1, "worker_connections": 3, "keepalive": 2, "menu_mode": "nopipe", "nclients": 1, "prefix": [[["connect", 0]], [["send", 0, "gate"]], [["tick"]]]}, 6, 1),
+    ({"threads": 2, "worker_connections": 3, "keepalive": 2, "menu_mode": "nopipe", "nclients": 2, "prefix": [[["connect", 0]], [["send", 0, "gate"]]]}, 5, 0),
 ]
 
 
